@@ -1,5 +1,6 @@
 import OasisModel.Proto
 import OasisModel.Mkvs.Overlay
+import OasisModel.Mkvs.Key
 /-
 Driver for the MKVS model (mode `mkvs`, executable `om_mkvs`), used by harness/cmd/mkvsdrv for
 C02, C03 and C13.  Every line carries the operation *and* what the real tree answered; the model
@@ -15,11 +16,16 @@ write-log entries `k:v` / `k:~` (delete).
   get L K ANS
   iter L K N ITEMS             Seek K then up to N items
   onew | ocommit | odiscard    push overlay | Commit outermost overlay (stays, empty) | Close it
+  ocopy | oswap                Copy(nil) of the outermost overlay kept aside (same inner handle) |
+                               exchange the outermost overlay with that copy; onew/odiscard/new/reopen drop it
   commit HASH LOG              Tree.Commit: root hash and returned write log (sorted by key)
   reopen HASH                  NewWithRoot at a committed root (no overlays open)
   applywl LOG                  ApplyWriteLog on the tree, entries in the given order
   getwl H1 H2 LOG              NodeDB.GetWriteLog(H1 -> H2): sub-log of Commit's log that maps contents(H1) to contents(H2)
   wf                           model self-check: current trie is in canonical form
+  ksplit K SP KL PRE SUF | kmerge K KL K2 K2L RES | kcpl K KL K2 K2L N | kappend K KL B RES | kgetbit K I B
+                               node.Key byte-level operations: answers compared with the byte-level
+                               transcription (`Key.*`) and with the bit-list operations
 -/
 namespace OasisModel.Mkvs.Driver
 open OasisModel.Proto OasisModel.Mkvs
@@ -30,6 +36,8 @@ structure St where
   lastRoot : Bytes := rootHash .nil  -- hash of the root the tree was opened at / last committed
   roots : List (Bytes × Trie) := [(rootHash .nil, .nil)]
   logs : List (Bytes × Bytes × List LogEntry) := []
+  /-- `ocopy`: an isolated copy of the outermost overlay over the same inner handle. -/
+  spare : Option Layer := none
   dead : Bool := false
 
 def showOpt : Option Bytes → String
@@ -86,7 +94,7 @@ def step (st : St) (line : String) : St × String :=
   if ws.any (fun w => w.startsWith "ERR" || w.startsWith "PANIC") then fail ("implementation error or panic: " ++ line.trimAscii.toString) else
   match ws with
   | [] => (st, "ok")
-  | ["new"] => ({ st with tree := {}, layers := [], lastRoot := rootHash .nil }, "ok")
+  | ["new"] => ({ st with tree := {}, layers := [], lastRoot := rootHash .nil, spare := none }, "ok")
   | ["insert", l, k, v] =>
     match l.toNat?, parseHex k, parseHex v with
     | some l, some k, some v =>
@@ -120,13 +128,26 @@ def step (st : St) (line : String) : St × String :=
   | ["iter", l, k, n, items] =>
     match l.toNat?, parseHex k, n.toNat?, parseItems items with
     | some l, some k, some n, some items =>
-      match atLevel st l (fun b ls => ((b, ls), Stack.iter b ls k)) with
-      | some (_, m) =>
+      -- compared with the specification (suffix of the sorted contents) and with the iterator
+      -- machine of iterator.go (`Iter.iterate`) at the bottom of the overlay stack
+      match atLevel st l (fun b ls => ((b, ls), (Stack.iter b ls k, Stack.iterMachine b ls k))) with
+      | some (_, (m, mm)) =>
         let m := m.take n
-        if m == items then (st, "ok") else fail s!"iterate model={showItems m} impl={showItems items}"
+        let mm := mm.take n
+        if m != items then fail s!"iterate model={showItems m} impl={showItems items}"
+        else if mm != items then fail s!"iterate-machine model={showItems mm} impl={showItems items}"
+        else (st, "ok")
       | none => fail "bad-level"
     | _, _, _, _ => fail "bad-op"
-  | ["onew"] => ({ st with layers := {} :: st.layers }, "ok")
+  | ["onew"] => ({ st with layers := {} :: st.layers, spare := none }, "ok")
+  | ["ocopy"] =>
+    match st.layers with
+    | [] => fail "bad-op: no overlay"
+    | L :: _ => ({ st with spare := some L.copy }, "ok")
+  | ["oswap"] =>
+    match st.layers, st.spare with
+    | L :: rest, some S => ({ st with layers := S :: rest, spare := some L }, "ok")
+    | _, _ => fail "bad-op: nothing to swap"
   | ["ocommit"] =>
     match st.layers with
     | [] => fail "bad-op: no overlay"
@@ -136,7 +157,7 @@ def step (st : St) (line : String) : St × String :=
   | ["odiscard"] =>
     match st.layers with
     | [] => fail "bad-op: no overlay"
-    | _ :: rest => ({ st with layers := rest }, "ok")
+    | _ :: rest => ({ st with layers := rest, spare := none }, "ok")
   | ["commit", h, log] =>
     match parseHex h, parseLog log with
     | some h, some log =>
@@ -152,7 +173,7 @@ def step (st : St) (line : String) : St × String :=
     match parseHex h with
     | some h =>
       match st.roots.lookup h with
-      | some t => ({ st with tree := { root := t }, layers := [], lastRoot := h }, "ok")
+      | some t => ({ st with tree := { root := t }, layers := [], lastRoot := h, spare := none }, "ok")
       | none => fail s!"reopen: root {showHex h} was never committed in the model"
     | none => fail "bad-op"
   | ["applywl", log] =>
@@ -178,6 +199,52 @@ def step (st : St) (line : String) : St × String :=
         else (st, "ok")
       | _, _, _ => fail "getwl: no such transition in the model"
     | _, _, _ => fail "bad-op"
+  | ["ksplit", k, sp, kl, pre, suf] =>
+    match parseHex k, sp.toNat?, kl.toNat?, parseHex pre, parseHex suf with
+    | some k, some sp, some kl, some pre, some suf =>
+      let m := Key.split k sp kl
+      let bitsPre := packBits ((toBits k).take sp)
+      let bitsSuf := packBits (((toBits k).take kl).drop sp)
+      if m != (pre, suf) then fail s!"key-split bytes-model=({showHex m.1},{showHex m.2}) impl=({showHex pre},{showHex suf})"
+      else if (bitsPre, bitsSuf) != (pre, suf) then fail s!"key-split bits-model=({showHex bitsPre},{showHex bitsSuf}) impl=({showHex pre},{showHex suf})"
+      else (st, "ok")
+    | _, _, _, _, _ => fail "bad-op"
+  | ["kmerge", k, kl, k2, k2l, res] =>
+    match parseHex k, kl.toNat?, parseHex k2, k2l.toNat?, parseHex res with
+    | some k, some kl, some k2, some k2l, some res =>
+      let m := Key.merge k kl k2 k2l
+      let b := packBits ((toBits k).take kl ++ (toBits k2).take k2l)
+      if m != res then fail s!"key-merge bytes-model={showHex m} impl={showHex res}"
+      else if b != res then fail s!"key-merge bits-model={showHex b} impl={showHex res}"
+      else (st, "ok")
+    | _, _, _, _, _ => fail "bad-op"
+  | ["kcpl", k, kl, k2, k2l, n] =>
+    match parseHex k, kl.toNat?, parseHex k2, k2l.toNat?, n.toNat? with
+    | some k, some kl, some k2, some k2l, some n =>
+      let m := Key.commonPrefixLen k kl k2 k2l
+      let b := lcp ((toBits k).take kl) ((toBits k2).take k2l)
+      if m != n then fail s!"key-cpl bytes-model={m} impl={n}"
+      else if b != n then fail s!"key-cpl bits-model={b} impl={n}"
+      else (st, "ok")
+    | _, _, _, _, _ => fail "bad-op"
+  | ["kappend", k, kl, b, res] =>
+    match parseHex k, kl.toNat?, parseHex res with
+    | some k, some kl, some res =>
+      let m := Key.appendBit k kl (b == "1")
+      let bb := Iter.appendBit k kl (b == "1")
+      if m != res then fail s!"key-appendbit bytes-model={showHex m} impl={showHex res}"
+      else if bb != res then fail s!"key-appendbit bits-model={showHex bb} impl={showHex res}"
+      else (st, "ok")
+    | _, _, _ => fail "bad-op"
+  | ["kgetbit", k, i, b] =>
+    match parseHex k, i.toNat? with
+    | some k, some i =>
+      let m := Key.getBit k i
+      let bb := Iter.getBit k i
+      if m != (b == "1") then fail s!"key-getbit bytes-model={m} impl={b}"
+      else if bb != (b == "1") then fail s!"key-getbit bits-model={bb} impl={b}"
+      else (st, "ok")
+    | _, _ => fail "bad-op"
   | ["wf"] =>
     if wfAtB [] st.tree.root then (st, "ok") else fail "model trie not in canonical form"
   | _ => fail "bad-op"
